@@ -28,7 +28,12 @@ func getKeyOperator(_ *dataTreeNavigator, context Context, _ *ExpressionNode) (C
 		candidate := el.Value.(*CandidateNode)
 
 		if candidate.Key != nil {
-			results.PushBack(candidate.Key)
+			if candidate.Parent != nil && candidate.Parent.Kind == SequenceNode {
+				// the index of a sequence element is its position, not a node of the document: hand out a copy
+				results.PushBack(candidate.Key.Copy())
+			} else {
+				results.PushBack(candidate.Key)
+			}
 		}
 	}
 
